@@ -231,12 +231,26 @@ def _r1(ctx):
               "one branch per element of the unfiltered network.elements", found=J.show(o[2]))
     evar = o[1]
     # bindings made before the loop (function scope) stay visible inside it
+    # (Jinja's scope is the template, not the C function: a top-level `{% set %}` anywhere before the loop counts, in template order)
     env0 = {}
-    for it, off in sk.items_in(fn):
+    for it in sk.marks:
         if it is o:
             break
         if it[0] == "set" and it[1][0] == "name":
             env0[it[1][1]] = J.subst(J.inline_macros(tree, it[-1], it[2]), env0)
+    # (a loop variable of the branch hides an outer binding of the same name)
+    def _targets(body):
+        out = set()
+        for it_ in body:
+            if isinstance(it_, tuple) and it_ and it_[0] == "for":
+                tg = it_[1]
+                out |= {tg[1]} if tg[0] == "name" else {t[1] for t in tg[1] if t[0] == "name"} if tg[0] in ("tuple", "list") else set()
+            for sub_ in it_ if isinstance(it_, tuple) else ():
+                if isinstance(sub_, (list, tuple)) and sub_ and isinstance(sub_[0], tuple):
+                    out |= _targets(sub_)
+        return out
+    for nm_ in _targets([o]):
+        env0.pop(nm_, None)
     # what the branch prints before the species loop: `if (elemidx == IDX_ELEM_<..>) {`
     pieces = J.printed(tree, o[3], dict(env0))
     guard_expr = None
